@@ -30,3 +30,4 @@ import RosuModel.Props.C04DecodedPathsIeee
 import RosuModel.Props.C04DecodedObjectsIeee2
 import RosuModel.Props.C04DecodedTimingEvents
 import RosuModel.Props.C04DecodedTimingUpper
+import RosuModel.Props.C04DecodedTimingOrder
